@@ -20,6 +20,7 @@ import Flamego.Driver.Parser
 import Flamego.Driver.App
 import Flamego.Driver.AppFull
 import Flamego.Driver.ConcReq
+import Flamego.Driver.Env
 open Flamego Flamego.Driver
 
 def dispatch (o : Oracle) (kind : String) (args : List String) (body : List (List String)) : List String :=
@@ -39,6 +40,7 @@ def dispatch (o : Oracle) (kind : String) (args : List String) (body : List (Lis
   | "render" => Render.session args body
   | "chain" => Chain.session args body
   | "noop" => Noop.session args body
+  | "envinit" => EnvS.session args body
   | "concreq" => Flamego.Driver.ConcReq.session args body
   | "dsl" => Dsl.session o.engine args body
   | "parser" => Parser.session args body
